@@ -393,7 +393,7 @@ class MemNet:
         loop.connector = self._connect
 
     async def _connect(self, factory, host, port, sslctx, server_hostname):
-        peer = self.peers.get((str(host).lower(), port))
+        peer = self.peers.get((str(host).lower(), port)) or getattr(self, "default_peer", None)
         if peer is None:
             self.decoy_hits.append((host, port))
             raise ConnectionRefusedError(111, f"Connect call failed ({host!r}, {port})")
